@@ -465,7 +465,7 @@ fn upload() -> BoxedStrategy<Upload> {
 }
 
 fn plan() -> BoxedStrategy<Plan> {
-    (proptest::collection::vec(upload(), 1..=2), 0u8..6, any::<u16>(), any::<bool>())
+    (proptest::collection::vec(upload(), 1..=2), 0u8..7, any::<u16>(), any::<bool>())
         .prop_map(|(mut uploads, kind, r, same_key)| {
             if same_key && uploads.len() > 1 {
                 let k = uploads[0].clone();
@@ -482,6 +482,8 @@ fn plan() -> BoxedStrategy<Plan> {
                     0 => lo,
                     1 => lo + r as usize % 4,
                     2 => hi,
+                    // the statement does not bound the budget from above
+                    6 => hi + 1 + (r as usize * 3) % 4000,
                     _ => lo + r as usize % (hi - lo + 1),
                 }
             };
@@ -491,7 +493,7 @@ fn plan() -> BoxedStrategy<Plan> {
 }
 
 pub fn run(ctx: &Ctx, rep: &mut Report) {
-    rep.assume("calling protocol of the in-crate TestServerHarness; CON/NON requests; budgets that admit the client's block size (request overhead + 12 + block size) up to 1280");
+    rep.assume("calling protocol of the in-crate TestServerHarness; CON/NON requests; budgets that admit the client's block size (request overhead + 12 + block size), mostly up to 1280, some up to 5280");
     rep.assume("the M bit of the echoed Block1 option, and the echoed number under size re-negotiation, are not constrained by the statement and not asserted");
     // directed: every body length around block multiples, with an abandoned longer predecessor
     let mut cases = Vec::new();
@@ -543,7 +545,7 @@ pub fn run(ctx: &Ctx, rep: &mut Report) {
         ctx,
         rep,
         "random-upload-plans",
-        "random plans of 1..=2 uploads on one handler (bodies 0..5000 around block multiples, szx 0..=6, per-block delivery counts 1..=3, abandoned predecessor of 1..=6 non-final blocks of another body and block size, PUT/POST/FETCH, paths, tokens, CON/NON, budgets from the lowest admitting the block size up to 1280); the final block is delivered once (repeated final delivery is the excluded known finding); distinct by plan hash",
+        "random plans of 1..=2 uploads on one handler (bodies 0..5000 around block multiples, szx 0..=6, per-block delivery counts 1..=3, abandoned predecessor of 1..=6 non-final blocks of another body and block size, PUT/POST/FETCH, paths, tokens, CON/NON, budgets from the lowest admitting the block size up to 1280, a seventh of the plans up to 5280); the final block is delivered once (repeated final delivery is the excluded known finding); distinct by plan hash",
         n,
         plan,
         |ctx, p: &Plan, acc| check_plan(ctx, p, acc, false),
